@@ -253,7 +253,7 @@ def put(kw, idx, val):
     kw[idx[-1]] = val
 
 
-def make_case(rng, shape=None, axis=None, kind=None):
+def make_case(rng, shape=None, axis=None, kind=None, noalias=False):
     fs, lo, hi = gen.gen_config(rng, small=True)
     if shape is None:
         shape = (int(rng.integers(1, 5)), int(rng.integers(1, 5)))
@@ -261,6 +261,8 @@ def make_case(rng, shape=None, axis=None, kind=None):
     nsamp = int(fs * rng.uniform(1.2, 2.2))
     rows = gen_rows(rng, n0 * n1, nsamp, fs, lo, hi)
     sigs = rows.reshape(n0, n1, nsamp)
+    if rng.random() < 0.2:
+        sigs = sigs.astype(np.float32)          # single-precision recordings
     if axis is None:
         axis = [0, 1, (0, 1)][int(rng.integers(0, 3))]
     if kind is None:
@@ -282,7 +284,7 @@ def make_case(rng, shape=None, axis=None, kind=None):
             c = str(rng.choice(['peak', 'trough']))
             kw = [[dict(epoch_opts(rng, lo), center_extrema=c) for _ in range(n1)] for _ in range(n0)]
     alias = None
-    if kind in ('1d', '2d') and rng.random() < 0.4:
+    if kind in ('1d', '2d') and rng.random() < 0.4 and not noalias:
         # the caller built its list from a few dict OBJECTS used at several positions (first and last the same object, ...)
         flat = [(i,) for i in range(len(kw))] if kind == '1d' else [(i, j) for i in range(len(kw)) for j in range(len(kw[0]))]
         if len(flat) >= 2:
@@ -323,11 +325,8 @@ def run(sh):
     # in every run: a 2-D option grid of pairwise different entries on arrays with unequal extents > 1 (row- vs column-major)
     for i, shape in enumerate([(2, 3), (3, 2)]):
         if (len(classes) + i) % sh.nshards == sh.shard:
-            c = make_case(rng, shape=shape, axis=(0, 1), kind='2d')
-            if c.get('alias'):
-                c = make_case(rng, shape=shape, axis=(0, 1), kind='2d')
-            if not c.get('alias'):
-                sh.note('distinct_2d_option_grid_on_unequal_extents')
+            c = make_case(rng, shape=shape, axis=(0, 1), kind='2d', noalias=True)
+            sh.note('distinct_2d_option_grid_on_unequal_extents')
             guarded(sh, run_one, sh, c, 'class_cover')
     K = 2 if sh.tier == 'quick' else 150
     for it in range(K):
